@@ -508,11 +508,62 @@ def walk_closure(prog, f):
 # --------------------------------------------------------------------------- semantic guard queries (robust to restructured conditions)
 
 def path_literals(guards):
-    """all literals (substituted test, polarity) implied by the guards of a path"""
+    """all literals (substituted test, polarity) implied by the guards of a path, closed under unit propagation:
+    a false `a and b` with a known true gives b false; a true `a or b` with a known false gives b true"""
     out = []
     for g in guards:
         _implied_literals(g[0], g[1], out)
+    if not any(isinstance(t, ast.BoolOp) for t, _ in out):
+        return out
+    for _ in range(4):
+        known = {}
+        for t, pol in out:
+            if not _impure(t):
+                k, p2 = _lit_key(t, pol)
+                known.setdefault(k, p2)
+        added = False
+        for t, pol in list(out):
+            if not isinstance(t, ast.BoolOp):
+                continue
+            unit = (isinstance(t.op, ast.And) and not pol) or (isinstance(t.op, ast.Or) and pol)
+            if not unit:
+                continue
+            want = isinstance(t.op, ast.And)          # operands that are `want` do not decide the result
+            open_ = []
+            for v in t.values:
+                lits = []
+                _implied_literals(v, True, lits)
+                k, p2 = _lit_key(lits[0][0], lits[0][1]) if len(lits) >= 1 else (None, None)
+                val = None
+                if k in known:
+                    val = known[k] == p2
+                if val is None:
+                    open_.append(v)
+                elif val != want:
+                    open_ = None
+                    break
+            if open_ is not None and len(open_) == 1:
+                new = []
+                _implied_literals(open_[0], not want, new)
+                for nt, npol in new:
+                    k, p2 = _lit_key(nt, npol)
+                    if k not in known:
+                        out.append((nt, npol))
+                        known[k] = p2
+                        added = True
+        if not added:
+            break
     return out
+
+
+def _lit_key(t, pol):
+    while isinstance(t, ast.UnaryOp) and isinstance(t.op, ast.Not):
+        t, pol = t.operand, not pol
+    if isinstance(t, ast.Compare) and len(t.ops) == 1 and isinstance(t.ops[0], (ast.IsNot, ast.NotEq, ast.NotIn)):
+        return ("cmp", {"IsNot": "Is", "NotEq": "Eq", "NotIn": "In"}[type(t.ops[0]).__name__], _ekey(t.left), _ekey(t.comparators[0])), not pol
+    if isinstance(t, ast.Compare) and len(t.ops) == 1 and isinstance(t.ops[0], (ast.Is, ast.Eq, ast.In)):
+        return ("cmp", type(t.ops[0]).__name__, _ekey(t.left), _ekey(t.comparators[0])), pol
+    return _ekey(t), pol
 
 
 def none_state(guards, name):
@@ -659,3 +710,40 @@ def store_status_key(st):
         k = const_str(st.sub) if st.sub is not None else const_str(t.slice)
         return (dotted(t.value.value), k)
     return None
+
+
+def format_fields(call):
+    """[(literal text, field expr | None, spec parts | None, conversion)] of a '<template>'.format(...) call; a field is resolved to
+    the expression it prints whether it is numbered, auto-numbered or named; spec parts are literal strings and expressions
+    (for nested fields such as the width in '{0:0{1}X}')."""
+    import string as _string
+    tpl = const_str(call.func.value)
+    out = []
+    auto = [0]
+
+    def resolve(name):
+        if name == "":
+            i = auto[0]
+            auto[0] += 1
+            return call.args[i] if i < len(call.args) else None
+        if name.isdigit():
+            i = int(name)
+            return call.args[i] if i < len(call.args) else None
+        if not name.isidentifier():
+            return None
+        from .model import kw as _kw
+        return _kw(call, name)
+    for lit, fld, spec, conv in _string.Formatter().parse(tpl):
+        if fld is None:
+            out.append((lit, None, None, None))
+            continue
+        val = resolve(fld)
+        parts = []
+        if spec:
+            for l2, f2, s2, c2 in _string.Formatter().parse(spec):
+                if l2:
+                    parts.append(l2)
+                if f2 is not None:
+                    parts.append(resolve(f2))
+        out.append((lit, val, parts, conv))
+    return out
